@@ -114,6 +114,8 @@ class Evaluator:
         self._stack = []
         self.reads = []
         self.steps = 0
+        self.exits = []
+        self.sinks = []
         self.step_budget = 400000
         self.heap = {}         # stream id -> (data term, position term)
 
@@ -193,7 +195,7 @@ class Evaluator:
             if env is None:
                 return T.raise_('TypeError'), facts
             return self.summaries[key](self, fi, env, facts)
-        if self._stack.count(key) >= 3:
+        if self._stack.count(key) >= 12:
             return T.opaque('recursion in %s' % key), facts
         env = self._bind(fi, args, kwargs, facts, depth)
         if env is None:
@@ -742,10 +744,20 @@ class Evaluator:
         return ('ext', '%s.%s' % (modname, orig))
 
     def ex_Tuple(self, e, fr):
-        return T.tup(self._elts(e.elts, fr))
+        return self._lift_seq(self._elts(e.elts, fr), T.tup)
 
     def ex_List(self, e, fr):
-        return T.lst(self._elts(e.elts, fr))
+        return self._lift_seq(self._elts(e.elts, fr), T.lst)
+
+    def _lift_seq(self, items, build):
+        """An element whose evaluation may raise makes the whole display raise on that alternative."""
+        for x in items:
+            if T.tag(x) == 'raise':
+                return x
+        r = self._lift(items, {}, lambda a2, k2: self._lift_seq(a2, build))
+        if r is not None:
+            return r
+        return build(items)
 
     def _elts(self, elts, fr):
         out = []
@@ -775,7 +787,10 @@ class Evaluator:
                     pairs.append((T.opaque('**'), inner))
                 continue
             pairs.append((self.expr(k, fr), self.expr(v, fr)))
-        return T.dct(pairs)
+        flat = []
+        for a, b in pairs:
+            flat.extend([a, b])
+        return self._lift_seq(flat, lambda xs: T.dct([(xs[i], xs[i + 1]) for i in range(0, len(xs), 2)]))
 
     def ex_IfExp(self, e, fr):
         c = self.decide(T.truth(self.expr(e.test, fr)), fr)
@@ -949,11 +964,17 @@ class Evaluator:
         return self._getitem(base, idx)
 
     def _slice(self, base, lo, hi):
+        for x in (base, lo, hi):
+            if T.tag(x) == 'raise':
+                return x
         if T.tag(base) == 'phi':
             return T.phi(base[1], self._slice(base[2], lo, hi), self._slice(base[3], lo, hi))
         return T.slice_(base, lo, hi)
 
     def _getitem(self, base, idx):
+        for x in (base, idx):
+            if T.tag(x) == 'raise':
+                return x
         if T.tag(base) == 'phi':
             return T.phi(base[1], self._getitem(base[2], idx), self._getitem(base[3], idx))
         if T.tag(idx) == 'phi':
